@@ -76,15 +76,15 @@ const (
 
 // H1 is one real IpfsDHT on a simulated host with the message-level sender.
 type H1 struct {
-	S    *sim.Sim
-	U    *simnet.Universe
-	Host *simhost.Host
-	Snd  *simnet.Sender
-	DHT  *dht.IpfsDHT
-	K    int
+	S           *sim.Sim
+	U           *simnet.Universe
+	Host        *simhost.Host
+	Snd         *simnet.Sender
+	DHT         *dht.IpfsDHT
+	K           int
 	Alpha, Beta int
-	Beh  map[peer.ID]*Behaviour
-	Ops  opSet
+	Beh         map[peer.ID]*Behaviour
+	Ops         opSet
 }
 
 func newH1(s *sim.Sim, u *simnet.Universe, k, alpha, beta int, opts ...dht.Option) (*H1, error) {
